@@ -109,9 +109,22 @@ func processProposal(ctx sdk.Context, k keeper.Keeper, proposalID uint64) {
 	content := proposal.GetContent()
 	if content.VotePermission() == types.PermZero {
 		router := k.GetProposalRouter()
-		totalVoters = len(router.AllowedAddressesDynamicProposal(ctx, content))
+		allowedAddresses := router.AllowedAddressesDynamicProposal(ctx, content)
+		totalVoters = len(allowedAddresses)
 		if totalVoters == 0 {
 			totalVoters = 1
+		}
+		// the voters (and so the veto-capable voters) of such a proposal are its allowed addresses,
+		// not the holders of permission zero
+		availableVoters = nil
+		for _, allowed := range allowedAddresses {
+			addr, err := sdk.AccAddressFromBech32(allowed)
+			if err != nil {
+				continue
+			}
+			if actor, found := k.GetNetworkActorByAddress(ctx, addr); found {
+				availableVoters = append(availableVoters, actor)
+			}
 		}
 	}
 	numVotes := len(votes)
